@@ -967,3 +967,42 @@ def lattice_box_pair(rng, overlap=True):
     p2 = (np.array(p1) + off).tolist()
     a, b = poly(k1, s1, p1, R1), poly(k2, s2, p2, R2)
     return a, b, dict(stream="lattice_boxes", kinds=[k1, k2], overlap=bool(np.all((e1 + e2) - np.abs(off) > 0)))
+
+
+def bigface_pair(rng):
+    """A small smooth collider in front of the INTERIOR of a face of a big vertex hull / mesh (4-12 vertices, radius 5-40) at
+    a true distance of 1..20: GJK converges with a 3-point simplex on that face and the next support point does not improve
+    (flat 4-point simplex) - the class of finding F-O1 (gjk_distance_original) and of the gjk_distance_jolt deviations."""
+    from scipy.spatial import ConvexHull
+    nv = rng.choice([4, 5, 6, 8, 12])
+    size = rng.choice([5.0, 10.0, 20.0, 40.0])
+    pts = []
+    for _ in range(nv):
+        v = np.array([rng.gauss(0, 1) for _ in range(3)])
+        pts.append(v / np.linalg.norm(v) * size * rng.uniform(0.6, 1.0))
+    Wv = np.array(pts) + np.array([rng.uniform(-5, 5) for _ in range(3)])
+    try:
+        hull = ConvexHull(Wv)
+    except Exception:  # noqa
+        return None
+    f = rng.randrange(len(hull.simplices))
+    tri = Wv[hull.simplices[f]]
+    nrm = hull.equations[f][:3]
+    w = np.array([rng.random() + 0.1 for _ in range(3)])
+    w /= w.sum()
+    q = w @ tri
+    k1 = rng.choice(["cone", "cylinder", "ellipsoid", "capsule", "sphere", "disk", "ellipse"])
+    s1 = nw.gen_collider(rng, k1, "random", spread=0.0, margin_prob=0.0, sizes=[10 ** rng.uniform(-1.3, 0.0) for _ in range(4)])
+    g = rng.choice([1.0, 3.0, 9.0, 20.0])
+    s1 = nw.translate_spec(s1, q + g * nrm - nw.support_point(s1, -nrm))
+    if rng.random() < 0.7:
+        s2 = dict(kind="hull", vertices=Wv.tolist())
+        k2 = "hull"
+    else:
+        c = Wv.mean(axis=0)
+        s2 = dict(kind="mesh", pose=nw.pose_of(np.eye(3), c.tolist()), vertices=(Wv - c).tolist())
+        k2 = "mesh"
+    meta = dict(stream="bigface", kinds=[k1, k2], gap=g, dir=(-nrm).tolist())
+    if rng.random() < 0.5:
+        return s2, s1, dict(meta, kinds=[k2, k1], dir=nrm.tolist())
+    return s1, s2, meta
